@@ -35,6 +35,7 @@ def check(ctx) -> None:
     r183(ctx)
     r184(ctx)
     r186(ctx)
+    r187(ctx)
 
 
 def _unwrap_bytes(e):
@@ -320,3 +321,57 @@ def r186(ctx) -> None:
               and c.args)
     R.check(amp, f, f.node, 'modutf7_encode emits "&-" for "&"',
             'the encoder never emits the "&-" escape')
+
+
+def r187(ctx) -> None:
+    R = ctx.rule('R18.7', 'all line input goes through the {n+}-collecting '
+                 'reader; encoder range tests agree', 3)
+    for rel, cn, collector in (('pymap/imap/__init__.py', 'IMAPConnection',
+                                'readline'),
+                               ('pymap/sieve/manage/__init__.py',
+                                'ManageSieveConnection', '_read_data')):
+        c = ctx.proj.cls(rel, cn)
+        col = c.own_method(collector)
+        if col is None:
+            raise AnchorError(f'{cn}.{collector} vanished')
+        # the collector is the one that looks for the {n+} marker
+        has_marker = '_literal_plus' in ' '.join(
+            txt(x) for x in walk_local(col.node)
+            if isinstance(x, ast.Attribute))
+        R.check(has_marker, col, col.node,
+                f'{cn}.{collector} collects non-synchronizing literals',
+                f'{collector} no longer looks for the {{n+}} marker')
+        for fs in c.methods.values():
+            for f in fs:
+                for x in calls_in(f.node):
+                    if call_name(x) in ('readline', 'readuntil') and \
+                            txt(x.func.value).endswith('reader'):
+                        R.check(f is col, f, x,
+                                f'{f.qualname}: raw reader.{call_name(x)}() '
+                                f'only inside {collector}',
+                                f'{f.qualname} reads a line straight from '
+                                f'the stream, bypassing {collector}: a '
+                                f'{{n+}} literal on that line is never '
+                                f'gathered, so the same command succeeds '
+                                f'or fails depending on which literal '
+                                f'spelling follows a {{n}} literal (LOGIN '
+                                f'{{8}} / testuser {{8+}} / testpass -> '
+                                f'BAD)')
+    m = ctx.proj.module(MODUTF7)
+    f = m.funcs.get('modutf7_encode')
+    ranges = []
+    for t in walk_local(f.node):
+        if isinstance(t, ast.Compare) and len(t.ops) == 2:
+            lo, hi = const_value(t.left), const_value(t.comparators[1])
+            if lo[0] and hi[0]:
+                lo_v = lo[1] + (1 if isinstance(t.ops[0], ast.Lt) else 0)
+                hi_v = hi[1] - (1 if isinstance(t.ops[1], ast.Lt) else 0)
+                ranges.append((lo_v, hi_v, t.lineno))
+    vals = {(a, b) for a, b, _ in ranges}
+    R.check(len(ranges) >= 2 and vals == {(0x20, 0x7e)}, f, f.node,
+            'modutf7_encode: every "printable" test is 0x20..0x7e',
+            f'the printable-range tests are {sorted(vals)} (lines '
+            f'{[l for _, _, l in ranges]}): the two encoder modes disagree '
+            f'on which characters represent themselves, e.g. a space after '
+            f'a non-ASCII character does not end the base64 run and "café '
+            f'menu" is reported as a name that decodes to "cafémenu"')
